@@ -23,6 +23,9 @@ fn all_kinds_program() -> Prog {
         call("f", vec![rf("a"), Expr::List(vec![lit_i(1), rf("zz")])]),
         Expr::Map(vec![(lit_s("k"), call("g", vec![]))]),
         bin("+", lit_i(2), post(lit_i(3), "--")),
+        // any operator token in prefix position is a Unary node: same symbol as prefix and postfix
+        un("++", post(rf("a"), "++")),
+        un("--", rf("zz")),
     ])
 }
 
@@ -93,11 +96,27 @@ fn seeded_case(r: &mut Prng) -> Case {
         if r.chance(3, 5) {
             let k = *r.pick(&DKINDS);
             let name = if k.named() { r.pick(&NAMES).to_string() } else { String::new() };
-            c.pre.push(Op::SetDesc { kind: k, name, id: next_id });
+            let id = if r.chance(1, 6) { REENTRANT_DESC + next_id } else { next_id };
+            c.pre.push(Op::SetDesc { kind: k, name, id });
             next_id += 1;
         } else {
             c.pre.push(Op::Describe { prog: r.pick(&progs).clone() });
         }
+    }
+    if r.chance(1, 3) {
+        // registrations of DIFFERENT (kind, name) pairs made concurrently by two threads: both must
+        // be in effect once both have returned
+        let mut keys: Vec<(DKind, String)> = singles();
+        r.shuffle(&mut keys);
+        let nk = 2 + r.usize(5);
+        let mut threads = vec![vec![], vec![]];
+        for (i, (k, n)) in keys.into_iter().take(nk).enumerate() {
+            threads[i % 2].push(Op::SetDesc { kind: k, name: n, id: next_id });
+            next_id += 1;
+        }
+        c.threads = threads;
+        c.post.push(Op::Describe { prog: all_kinds_program() });
+        c.post.push(Op::Describe { prog: progs[1].clone() });
     }
     c.pre.push(Op::Describe { prog: all_kinds_program() });
     c.pre.push(Op::Describe { prog: progs[1].clone() });
@@ -124,14 +143,15 @@ impl Prop for C18 {
                    look-alikes under another kind) + 4 unnamed kinds = 49 cases - each against a program containing all nine node kinds, a one-statement \
                    program and the empty program, describe() before and after; sampled part: seeded histories of 2..11 registrations / re-registrations \
                    interleaved with describe() of the all-kinds program and of generated programs, in a fresh simulated process (the engine used or not \
-                   before the first registration). evaluations = simulated executions; distinct_nontrivial = distinct histories with at least one \
+                   before the first registration); a sixth of the descriptors re-enter the engine (parse_expression + describe from inside the descriptor); in a \
+                   third of the seeded cases two simulated threads register different (kind, name) pairs concurrently under seeded schedules. evaluations = simulated executions; distinct_nontrivial = distinct histories with at least one \
                    registration followed by a describe() that contains a node of the registered kind",
             assumptions: &[
                 "descriptor registration is reachable only through the cfg-guarded verif_hooks re-export of DescriptorManager",
                 "the reference describe() walks the harness's own tree; literal rendering is expr()'s (numbers as written, strings in double quotes)",
             ],
-            fault_kinds: &["fresh_process", "register_before_first_use"],
-            probes: &["single_registrations_run", "binary_descriptor_used", "lookalike_name_other_kind", "re_registration"],
+            fault_kinds: &["fresh_process", "register_before_first_use", "reenter_describe", "preempt_in_call"],
+            probes: &["single_registrations_run", "binary_descriptor_used", "lookalike_name_other_kind", "re_registration", "concurrent_registrations", "same_symbol_prefix_and_postfix"],
         }
     }
 
@@ -147,6 +167,9 @@ impl Prop for C18 {
             if *k == DKind::Binary && ["-", "+"].contains(&n.as_str()) {
                 rt.probe("binary_descriptor_used");
             }
+            if (*k == DKind::Unary || *k == DKind::Postfix) && (n == "++" || n == "--") {
+                rt.probe("same_symbol_prefix_and_postfix");
+            }
             if (*k == DKind::Unary && n == "++") || (*k == DKind::Reference && n == "g") || (*k == DKind::Function && n == "a") {
                 rt.probe("lookalike_name_other_kind");
             }
@@ -161,8 +184,25 @@ impl Prop for C18 {
             rt.skip(&format!("preflight: {}", why.split_whitespace().take(3).collect::<Vec<_>>().join(" ")));
             return vec![];
         }
-        let out = rt.sim(&case, &SchedSpec::Lowest);
+        let mut out = rt.sim(&case, &SchedSpec::Lowest);
+        let first_hash = out.history_hash();
         rt.fired("fresh_process", 1);
+        if !case.threads.is_empty() {
+            // concurrent registrations: a few seeded schedules
+            rt.probe("concurrent_registrations");
+            let mut sr = Prng::derive(seed, "C18.sched", idx);
+            for j in 1..8 {
+                if let Some((c, d)) = judge(&case, &out, rt) {
+                    return vec![violation("C18", &c, d, seed, idx, &case, &out)];
+                }
+                let spec = crate::props::c13::schedule_for(&mut sr, j, out.rec.decisions);
+                out = rt.sim(&case, &spec);
+                rt.fired("preempt_in_call", out.rec.preemptions as u64);
+            }
+        }
+        if case.pre.iter().any(|o| matches!(o, Op::SetDesc { id, .. } if *id >= REENTRANT_DESC)) {
+            rt.fired("reenter_describe", 1);
+        }
         if matches!(case.pre.first(), Some(Op::SetDesc { .. })) {
             rt.fired("register_before_first_use", 1);
         }
@@ -192,7 +232,7 @@ impl Prop for C18 {
         if idx % 64 == 0 {
             let again = rt.sim(&case, &SchedSpec::Lowest);
             rt.stats.determinism_rechecks += 1;
-            if again.history_hash() != out.history_hash() {
+            if again.history_hash() != first_hash {
                 rt.stats.nondeterminism.push(format!("C18 idx {}", idx));
             }
         }
